@@ -13,6 +13,10 @@
 //	                      until n or all pending bytes were taken)
 //	                      => k=<bytes handed over> f=<len:fnv64 of every frame delivered, in order | ->
 //	eof                   the reader reports io.EOF                => nil | err  (return value)
+//
+// A Read offered an empty slice is reported as "stall ..." (the real loop would spin on (0,nil));
+// a reader goroutine that neither comes back to Read nor returns within the watchdog time as
+// "hang ...".
 package c11
 
 import (
@@ -113,9 +117,13 @@ type run struct {
 	frames  []string    // frames delivered since the last collection
 	offered int         // len(p) of the Read the goroutine currently sits in; -1 = finished
 	result  string
+	hung    bool
 }
 
 var cur *run
+
+// watchdog: how long the reader goroutine may stay away from Read() before it is declared spinning
+const watchdog = 20 * time.Second
 
 func (r *run) waitIdle() {
 	select {
@@ -124,6 +132,11 @@ func (r *run) waitIdle() {
 	case res := <-r.done:
 		r.offered = -1
 		r.result = res
+	case <-time.After(watchdog):
+		// neither back in Read nor returned: the real code is spinning / blocked elsewhere
+		r.offered = -1
+		r.hung = true
+		r.result = "hung"
 	}
 }
 
@@ -243,6 +256,9 @@ func exec(op string) string {
 			}
 		}
 		out := fmt.Sprintf("k=%d f=%s", k, r.take())
+		if r.hung {
+			return "hang " + out
+		}
 		if r.offered < 0 {
 			out += " ret=" + r.result
 		}
@@ -326,6 +342,10 @@ func gen(g *common.Gen) {
 		g.Stat("hist-" + kind)
 		// style of the history
 		style := i % 8
+		if style == 4 && kind == "fw" {
+			genAligned(g, r)
+			continue
+		}
 		var total int
 		switch {
 		case style == 0 && kind == "fw":
@@ -460,6 +480,138 @@ func gen(g *common.Gen) {
 		g.Op("eof")
 		_ = pendingLens
 	}
+}
+
+// bufCap is the size of readTlvStream's receive buffer; it only steers the generator (the model
+// takes the real value from the regenerated constants).
+const bufCap = 32 * maxPkt
+
+// sizedBlock emits a block of exactly `size` bytes (type 6; sizes 255 and 256 do not exist).
+func sizedBlock(g *common.Gen, r *common.Rand, size int) {
+	n := size - 2
+	if size >= 257 {
+		n = size - 4
+	}
+	g.Op("blk 6 %d %d", n, r.Range(0, 40))
+	g.Stat("blk")
+	if size == maxPkt {
+		g.Stat("blk-maxsize")
+	}
+}
+
+func sizeOk(s int) bool { return s >= 2 && s <= maxPkt && s != 255 && s != 256 }
+
+// genAligned: BLOCK-ALIGNED chunkings — every read returns k whole blocks, so after every read the
+// buffer is completely consumed.  Variants: (a) 32 maximum-size blocks = exactly the buffer capacity,
+// (b) mixed sizes steered so that the bytes read since the buffer was last non-empty add up to
+// exactly the capacity, (c) long aligned streams far beyond the capacity.  Each continues with
+// more aligned reads afterwards, so anything lost after the critical point is noticed.
+func genAligned(g *common.Gen, r *common.Rand) {
+	variant := r.Intn(3)
+	g.Stat("style-aligned-" + []string{"cap-maxblocks", "cap-mixed", "long"}[variant])
+	off := 0 // bytes in the buffer in front of the next read if nothing were ever rewound
+	group := func(sizes []int) {
+		sum := 0
+		for _, s := range sizes {
+			sizedBlock(g, r, s)
+			sum += s
+		}
+		g.Op("rd %d", sum)
+		g.Stat("rd")
+		g.Stat("rd-aligned")
+		off += sum
+	}
+	randSize := func() int {
+		for {
+			var s int
+			switch r.Intn(4) {
+			case 0:
+				s = r.Range(2, 60)
+			case 1:
+				s = r.Range(2, 600)
+			case 2:
+				s = maxPkt
+			default:
+				s = r.Range(2, maxPkt)
+			}
+			if sizeOk(s) {
+				return s
+			}
+		}
+	}
+	if variant != 0 && r.Chance(1, 2) {
+		// first some traffic with reads ending inside blocks (the buffer is rewound at an arbitrary point)
+		for k := r.Range(1, 6); k > 0; k-- {
+			s := randSize()
+			sizedBlock(g, r, s)
+			f := r.Range(1, s)
+			g.Op("rd %d", f)
+			g.Op("rd %d", s)
+			g.StatN("rd", 2)
+			if f < s {
+				off = s // rewound with f unread bytes in front, then the rest of the block arrived
+			} else {
+				off += s
+			}
+		}
+	}
+	switch variant {
+	case 0:
+		per := common.Pick(r, []int{1, 1, 2, 4, 8})
+		for left := 32; left > 0; {
+			k := per
+			if k > left {
+				k = left
+			}
+			sizes := make([]int, k)
+			for j := range sizes {
+				sizes[j] = maxPkt
+			}
+			group(sizes)
+			left -= k
+		}
+	case 1:
+		for bufCap-off > 4*maxPkt {
+			k := r.Range(1, 4)
+			sizes := make([]int, k)
+			for j := range sizes {
+				sizes[j] = randSize()
+			}
+			group(sizes)
+		}
+		// finish exactly at the capacity
+		for rem := bufCap - off; rem > 0; rem = bufCap - off {
+			if sizeOk(rem) && r.Chance(1, 2) {
+				group([]int{rem})
+				continue
+			}
+			s := randSize()
+			for s > rem || (rem-s != 0 && !sizeOk(rem-s) && rem-s < 300) {
+				s = r.Range(2, 254)
+				if rem < 600 && sizeOk(rem) {
+					s = rem
+				}
+			}
+			group([]int{s})
+		}
+		g.Stat("aligned-total-equals-capacity")
+	default:
+		total := r.Range(300_000, 600_000)
+		for off < total {
+			k := r.Range(1, 5)
+			sizes := make([]int, k)
+			for j := range sizes {
+				sizes[j] = randSize()
+			}
+			group(sizes)
+		}
+	}
+	// traffic after the critical point
+	for k := r.Range(5, 15); k > 0; k-- {
+		group([]int{randSize()})
+	}
+	g.Op("rd %d", 1<<20)
+	g.Op("eof")
 }
 
 func TestVerif(t *testing.T) {
